@@ -97,7 +97,11 @@ func TestVerifC02(t *testing.T) {
 	}
 	anchors := []string{"2024-01-07", "2024-03-03", "2023-12-31", "2024-02-29", "2023-03-01", "2025-01-05"}
 	if p.Thorough() {
-		anchors = append(anchors, "2024-12-29", "2024-02-25", "2023-02-26", "2026-03-01", "2024-06-30", "2024-09-01")
+		// every week end of 2024 (each weekday in turn), plus leap and year boundaries
+		for d := zzvDate("2023-12-25"); d.Before(zzvDate("2025-01-12")); d = d.Add(8 * zzvDay) {
+			anchors = append(anchors, d.Format("2006-01-02"))
+		}
+		anchors = append(anchors, "2024-02-28", "2024-03-01", "2023-02-28", "2026-03-01", "2027-12-31", "2028-02-29")
 	}
 	idx := 0
 	for _, anchor := range anchors {
